@@ -129,6 +129,7 @@ def gen_cases(tier, seed):
                       'block': [16384, 64, 1000, 7][(i // 8) % 4],
                       'maxreq': [128, 1, 4][(i // 32) % 3],
                       'nops': 3 + i % 9,
+                      'version': [3, 5, 4, 6, 3, 6][i % 6],
                       'chunk': 'all',
                       'cseed': 7000 + i + 100000 * (int(seed) % 1000)})
     if openssh.SFTP:
@@ -490,12 +491,12 @@ def _run_fileseq(case, mon, viol):
     enc = case['enc'] if text else None
     appending = mode.startswith('a')
     readable = '+' in mode or mode.startswith('r')
-    initial = apps.stream_bytes(('fs', case['cseed']), 300) \
-        if mode.startswith(('a', 'r')) and not text else b''
-    if mode.startswith('a') and text:
-        initial = 'd\u00e9but\n'.encode(enc)
+    # the file exists already; 'w' modes have to empty it on open
+    ondisk = apps.stream_bytes(('fs', case['cseed']), 300) if not text \
+        else 'd\u00e9but\n'.encode(enc) * 9
+    initial = ondisk if mode.startswith(('a', 'r')) else b''
     with open(os.path.join(root, 'f.bin'), 'wb') as f:
-        f.write(initial)
+        f.write(ondisk)
     alphabet = {'utf-8': 'ab\u00e9\u20ac\U0001F600\n', 'latin-1': 'ab\u00e9\n',
                 'utf-16-le': 'ab\u00e9\u20ac\U0001F600\n'}.get(enc, '')
 
@@ -511,13 +512,15 @@ def _run_fileseq(case, mon, viol):
                 from asyncssh.stream import SSHServerStreamSession
                 return SSHServerStreamSession(
                     None, lambda chan: asyncssh.SFTPServer(chan,
-                                                           chroot=root), 3)
+                                                           chroot=root),
+                    case.get('version', 3))
 
         async with scen.Env(loop, server_factory=lambda: Srv(
                 apps.EventLog()), chunking=case['chunk'],
                 seed=case['cseed']) as env:
             conn = await env.connect()
-            sftp = await conn.start_sftp_client()
+            sftp = await conn.start_sftp_client(
+                sftp_version=case.get('version', 3))
             okw = dict(block_size=case['block'], max_requests=case['maxreq'])
             if text:
                 okw['encoding'] = enc
